@@ -419,14 +419,16 @@ class World:
 # ----------------------------------------------------------------------------------------
 PROFILES = {
     # weights of op kinds; per-walk one of several "swarm" variants is chosen
+    # (optional features are switched at a low rate in most profiles: edits must behave the
+    # same whatever is enabled; not in "history", whose timeline compares registered key sets)
     "general": {"add_node": 3, "delete_node": 2, "add_edge": 4, "delete_edge": 2, "swap": 1,
-                "attrs": 1, "paint": 4, "undo": 2, "redo": 1},
+                "attrs": 1, "paint": 4, "undo": 2, "redo": 1, "enable": 0.5, "disable": 0.5},
     "structure": {"add_node": 3, "delete_node": 3, "add_edge": 5, "delete_edge": 3, "swap": 2,
-                  "paint": 2, "undo": 2, "redo": 1},
+                  "paint": 2, "undo": 2, "redo": 1, "enable": 0.4, "disable": 0.4},
     "history": {"add_node": 2, "delete_node": 1, "add_edge": 2, "delete_edge": 1, "swap": 1,
                 "attrs": 2, "paint": 2, "undo": 6, "redo": 4},
     "paint": {"add_node": 1, "delete_node": 1, "add_edge": 2, "delete_edge": 1, "paint": 8,
-              "undo": 2, "redo": 1},
+              "undo": 2, "redo": 1, "enable": 0.4, "disable": 0.4},
     "refusal": {"add_node": 4, "delete_node": 2, "add_edge": 4, "delete_edge": 2, "swap": 2,
                 "attrs": 2, "paint": 4, "undo": 1, "redo": 1},
     "features": {"add_node": 1, "delete_node": 1, "add_edge": 2, "delete_edge": 1, "attrs": 2,
@@ -681,6 +683,10 @@ def _gen_toggle(world, rnd, kind, bad) -> dict:
     # core id / position features are only toggled at registry level (C10 finish): user
     # actions are not defined on a solution without track ids
     pool = [k for k in avail if k not in core]
+    iso = tr.scale is None or len(set(tr.scale[1:])) == 1
+    if world.ndim == 3 and not iso:
+        # skimage: 2D perimeter (hence circularity) supports isotropic spacing only
+        pool = [k for k in pool if k not in ("perimeter", "circularity")]
     k = rnd.randint(1, max(1, min(3, len(pool))))
     keys = sorted({_pick(rnd, pool) for _ in range(k)}) if pool else []
     if bad:
